@@ -212,7 +212,7 @@ def gen_event(rng, t, m, K, horizon, kind=None, profile=None):
             tot = sum(v for _, v in e["impact"])
             e["households"] = [[list(h), tot * rng.uniform(0.1, 0.8)] for h in sorted(hh)]
     if kind == "rebuild":
-        e["tau"] = rng.choice([dt * 5, dt * 20, 60, 365])
+        e["tau"] = rng.choice(profile.get("reb_tau") or [dt * 5, dt * 20, 60, 365])
         ns = rng.randint(1, min(3, len(t["sectors"])))
         secs = rng.sample(t["sectors"], ns)
         if ns == 1:
@@ -248,6 +248,9 @@ PROFILES = {
     "mixed": dict(events=(0, 4), horizon=(10, 25)),
     "rebuild": dict(events=(1, 3), kinds=["rebuild"], horizon=(12, 25), p_house=0.6),
     "recover": dict(events=(1, 3), kinds=["recovery", "arbitrary"], horizon=(10, 25)),
+    # small, quickly rebuilt damages: events finish while others are still rebuilding / start later
+    "rebuild_finish": dict(events=(2, 4), kinds=["rebuild", "rebuild", "rebuild", "recovery"], horizon=(30, 60),
+                           p_house=0.5, reb_tau=[1, 2, 3], frac_hi=0.05, dt=1, emf_same=False),
     "shortage": dict(events=(1, 2), kinds=["recovery", "arbitrary", "rebuild"], horizon=(15, 30),
                      inv_mode="short", psi_choices=[0.1, 0.5], frac_hi=0.9),
 }
